@@ -116,6 +116,10 @@ pub fn generate(tier: Tier, rng: &mut Rng, sink: &mut dyn FnMut(RtCase)) {
         crate::GEN_PANICKED.store(true, std::sync::atomic::Ordering::SeqCst);
         eprintln!("generator family gen_tokio panicked");
     }
+    if std::panic::catch_unwind(std::panic::AssertUnwindSafe(|| gen_yield(&mut g))).is_err() {
+        crate::GEN_PANICKED.store(true, std::sync::atomic::Ordering::SeqCst);
+        eprintln!("generator family gen_yield panicked");
+    }
     if std::panic::catch_unwind(std::panic::AssertUnwindSafe(|| gen_tokio_multi(&mut g))).is_err() {
         crate::GEN_PANICKED.store(true, std::sync::atomic::Ordering::SeqCst);
         eprintln!("generator family gen_tokio_multi panicked");
@@ -1825,6 +1829,37 @@ fn gen_tokio_multi(g: &mut Gen) {
                 );
             }
         }
+    }
+}
+
+/// nm-yield: user futures that yield cooperatively (wake themselves and return `Pending` `yld`
+/// times before they obey the schedule). `FuturesUnordered` ends its round early once two futures
+/// have yielded, which the model does not describe: monitors only (`nm-` prefix).
+fn gen_yield(g: &mut Gen) {
+    // independent functions, every limit around n
+    for n in [4usize, 6, 9] {
+        let ops = plain_ops(n, &[]);
+        for lim in 0..=n {
+            for yld in [1usize, 2, 3] {
+                for (api, mutable) in [(Api::ForEach, false), (Api::TryForEach, true), (Api::ForEach, true), (Api::Fold, false)] {
+                    let mut cfg = CallCfg::plain(api);
+                    cfg.mutable = mutable;
+                    cfg.lim = if api.has_limit() { lim } else { 0 };
+                    cfg.yld = yld;
+                    cfg.imm = (0..n).map(|i| (i, true)).collect();
+                    g.emit("nm-yield-indep", &ops, Body::X(cfg, vec![ev(CallEvKind::Settle)]));
+                }
+            }
+        }
+    }
+    let count = g.pick(300, 3000);
+    for _ in 0..count {
+        let (ops, n) = random_graph(g.rng, 2, 8, true);
+        let mut graph = must_build(&ops);
+        let mut cfg = random_call_cfg(g.rng, n, true, &Api::ALL);
+        cfg.yld = 1 + g.rng.below(3);
+        let evs = adaptive_call(g.rng, &mut graph, &cfg, KNOBS_RAND, 6 * n + 20);
+        g.emit("nm-yield-rand", &ops, Body::X(cfg, evs));
     }
 }
 
